@@ -148,6 +148,34 @@ DecomposeDir(s, d) ==   \* repeated splitting at the first interior knot
   LET ik == InteriorKnots(s.deg[d], s.kv[d]) IN
   IF ik = <<>> THEN <<s>> ELSE LET pc == SplitDir(s, d, ik[1]) IN <<pc[1]>> \o DecomposeDir(pc[2], d)
 
+\* ---- reversal, transposition, flipping ------------------------------------------------------------
+\* abstract.Curve.reverse: reversed control points, knots k -> max - k in reverse order
+ReverseCurve(s) == LET U == s.kv[1] IN
+  [s EXCEPT !.P = RevSeq(s.P), !.kv = <<RevSeq(TLCEval([i \in 1..Len(U) |-> RSub(Last(U), U[i])]))>>]
+\* operations.transpose: u and v swap roles; new point (u', v') is the old point (v', u')
+Transpose(s) ==
+  LET su == s.size[1] sv == s.size[2] IN
+  [s EXCEPT !.deg = <<s.deg[2], s.deg[1]>>, !.kv = <<s.kv[2], s.kv[1]>>, !.size = <<sv, su>>,
+            !.P = TLCEval([x \in 1..(su * sv) |-> LET nu == (x - 1) \div su nv == (x - 1) % su IN s.P[nu + sv * nv + 1]])]
+\* operations.flip: the flat control net in reverse order
+Flip(s) == [s EXCEPT !.P = RevSeq(s.P)]
+
+\* ---- affine maps act on the unweighted points, weights unchanged ---------------------------------------
+MapPoints(s, F(_)) ==
+  [s EXCEPT !.P = IF s.rat
+                  THEN TLCEval([i \in 1..Len(s.P) |-> LET w == s.P[i][CDim(s)] IN VScale(w, F(Project(s.P[i]))) \o <<w>>])
+                  ELSE TLCEval([i \in 1..Len(s.P) |-> F(s.P[i])])]
+Translate(s, vec) == MapPoints(s, LAMBDA p : VAdd(p, vec))
+ScaleBy(s, c) == MapPoints(s, LAMBDA p : VScale(c, p))
+\* rotation by the angle with cosine co and sine si about coordinate axis ax (0 = x, 1 = y, 2 = z) through `origin`
+\* (for 2-D points only ax = 2 is meaningful)
+Rot(p, ax, co, si) ==
+  IF Len(p) = 2 THEN <<RSub(RMul(p[1], co), RMul(p[2], si)), RAdd(RMul(p[1], si), RMul(p[2], co))>>
+  ELSE IF ax = 0 THEN <<p[1], RSub(RMul(p[2], co), RMul(p[3], si)), RAdd(RMul(p[2], si), RMul(p[3], co))>>
+  ELSE IF ax = 1 THEN <<RAdd(RMul(p[1], co), RMul(p[3], si)), p[2], RSub(RMul(p[3], co), RMul(p[1], si))>>
+  ELSE <<RSub(RMul(p[1], co), RMul(p[2], si)), RAdd(RMul(p[1], si), RMul(p[2], co)), p[3]>>
+RotateAbout(s, origin, ax, co, si) == MapPoints(s, LAMBDA p : VAdd(Rot(VSub(p, origin), ax, co, si), origin))
+
 \* affine reparametrisation test: piece(t) = orig(lo + t (hi - lo)) in direction d, at deg+1 samples per span of the piece
 PieceMatches(piece, orig, d, lo, hi) ==
   \A prm \in SampleParams(piece) :
